@@ -34,8 +34,11 @@ CLAIM = dict(
          "CHECKED numerically on the rot_orb / atommap / T arrays of every tested symmetrizer, not proved for Dwann. "
          "PARTIAL (checked only): Dwann / set_D_wann_from_projections produce a representation; the two-pass driver "
          "SymWann.symmetrize (new R-vectors, mode 'single', assembly over blocks); symmetrize_WCC; System_R glue. "
-         "The oracle covers every public entry point and the option space (use_symmetries_index subgroups, cutoff) and "
-         "always refers to the group actually used.",
+         "The oracle covers every public entry point and the option space (use_symmetries_index subgroups; cutoff and "
+         "cutoff_dict with values taken from the block maxima of the model: the result must equal the cutoff-free "
+         "symmetrisation of the input with exactly the sub-cutoff blocks removed, be covariant and stay fixed under a "
+         "further symmetrisation) and always refers to the group actually used.  Known findings: centre averaging for "
+         "orbital-mixing operations; cutoff>0 raises when a whole symmetry orbit of blocks is below the cutoff.",
 )
 TRUSTED = [
     "modelled and proved: the marking loop of SymWann.find_irreducible_Rab over an abstract finite (partial) action; "
@@ -61,7 +64,8 @@ RULE = ("random Hermitian models (wbsys.rand_system: 4-10 random R-vectors, rand
         "triclinic (inversion only), zincblende, magnetic (ferro- and antiferromagnetic, TR-combined operations) groups, "
         "orbitals s/p/d and hybrids, several sites, with and without spinor; each model is symmetrised with the full group "
         "and with subgroups passed as use_symmetries_index (identity only, unitary operations, subgroups generated by 1-2 "
-        "random operations); non-trivial = more than 2 (full) / more than 1 (subgroup) operations; "
+        "random operations) and with cutoff / cutoff_dict at 1e-14 and at the 10/30/50 % quantiles of the block maxima "
+        "(structures with p/d shells on 3-/6-fold sites are always in the sample); non-trivial = more than 2 (full) / more than 1 (subgroup) operations; "
         "distinct = distinct (structure, sub-seed, operation list)")
 
 
@@ -416,10 +420,14 @@ def subgroups_to_try(ops, rs, how_many):
         H = generated_subgroup(ops, gens)
         if 1 < len(H) < n:
             out.setdefault(f"generated(order {len(H)})", H)
-        if len(out) >= how_many:
+        if len(out) >= how_many + 1:
             break
     res = []
-    for label, H in list(out.items())[:how_many]:
+    labels = list(out)
+    rest = labels[1:]
+    rs.shuffle(rest)
+    for label in ([labels[0]] + rest)[:how_many]:
+        H = out[label]
         H = list(H)
         rs.shuffle(H)
         res.append((label, [int(x) for x in H]))
@@ -767,7 +775,7 @@ def check_structure(ctx, name, st, sub_seed, n_k, max_g, n_sub=2, tower=True, ro
             if not check_projector(ctx, tag, sinfo, s, sGH, "a model already symmetric under the full group is changed "
                                    "by symmetrising with a subgroup", scaleH, kf_c):
                 return
-            if not ((tower and nsym <= 48) or nsym <= 16):
+            if not ((tower and nsym <= 32) or nsym <= 16):
                 continue
             sHG = resymmetrized(sH, sym)
             if not check_projector(ctx, tag, sinfo, s, sHG, "subgroup average followed by the full-group average differs "
@@ -775,7 +783,7 @@ def check_structure(ctx, name, st, sub_seed, n_k, max_g, n_sub=2, tower=True, ro
                 return
         # ---- option space of symmetrize2: cutoff / cutoff_dict
         if n_sub > 1 or (n_sub > 0 and ctx.tier == "quick"):
-            if not cutoff_sweep(ctx, name, info, st, s_raw, sym, ops, rs, kf_c, worst, n_variants=2):
+            if not cutoff_sweep(ctx, name, info, st, s_raw, sym, ops, rs, kf_c, worst, n_variants=2 if ctx.tier == "quick" else 1):
                 return
         if len(ctx.samples) < 3:
             ctx.sample(dict(structure=name, num_wann=s.num_wann, group_order=nsym, nR_after=int(s.rvec.nRvec),
@@ -855,7 +863,7 @@ def oracle(ctx, scale):
         sub = rng.getrandbits(40)
         # quick tier: the option sweep (3 subgroups) on the first three structures of the stratified sample only
         # thorough tier: the first model of every structure gets the full option sweep, the second one a light one
-        n_sub = (3 if i < len(S) else 0) if ctx.tier == "thorough" else (3 if i % 5 < 3 else 0)
+        n_sub = (2 if i < len(S) else 0) if ctx.tier == "thorough" else (3 if i % 5 < 3 else 0)
         check_structure(ctx, name, S[name], sub, n_k=ctx.n(2, 3), max_g=ctx.n(6, 48), n_sub=n_sub,
                         tower=ctx.tier == "thorough")
         if ctx.failures and not ctx.searching:
